@@ -43,7 +43,21 @@ var gridVals = []float64{-2, -1, -0.5, 0, 0.25, 0.5, 1, 1, 1.5, 2, 3, 0.1, 0.7}
 
 func hexF(f float64) string { return fmt.Sprintf("0x%016x", math.Float64bits(f)) }
 
+func (cc *concreteCtx) known(name string) (float64, bool) {
+	if v, ok := cc.Values[name]; ok {
+		if s, isS := v.(string); isS {
+			var u uint64
+			fmt.Sscanf(s, "0x%x", &u)
+			return math.Float64frombits(u), true
+		}
+	}
+	return 0, false
+}
+
 func (cc *concreteCtx) float(name string) float64 {
+	if f, ok := cc.known(name); ok {
+		return f
+	}
 	var f float64
 	if cc.rng.Intn(5) == 0 {
 		f = math.Round((cc.rng.Float64()*8-4)*1000) / 1000
@@ -55,6 +69,9 @@ func (cc *concreteCtx) float(name string) float64 {
 }
 
 func (cc *concreteCtx) floatIn(name string, lo, hi float64) float64 {
+	if f, ok := cc.known(name); ok {
+		return f
+	}
 	var f float64
 	switch cc.rng.Intn(6) {
 	case 0:
@@ -146,6 +163,9 @@ func (in *Interp) verifrtConcrete(name string, args []Value) (Value, bool) {
 		}
 		return cc.floatIn(args[0].(string), lo, hi), true
 	case "SymBool", "Bool":
+		if v, ok := cc.Values[args[0].(string)]; ok {
+			return v.(bool), true
+		}
 		b := cc.rng.Intn(2) == 1
 		cc.Values[args[0].(string)] = b
 		return b, true
@@ -154,11 +174,17 @@ func (in *Interp) verifrtConcrete(name string, args []Value) (Value, bool) {
 		if hi < lo {
 			panic(Infeasible{"empty int range"})
 		}
+		if v, ok := cc.Values[args[0].(string)]; ok {
+			return v.(int64), true
+		}
 		k := lo + int64(cc.rng.Intn(int(hi-lo+1)))
 		cc.Values[args[0].(string)] = k
 		return k, true
 	case "OneOf":
 		ch := in.variadic(args[1])
+		if v, ok := cc.Values[args[0].(string)]; ok {
+			return v.(string), true
+		}
 		k := cc.rng.Intn(len(ch))
 		cc.Values[args[0].(string)] = ch[k].(string)
 		return ch[k], true
